@@ -21,7 +21,7 @@ BOUNDS = {
              'Permanent, raise other exception, per-recipient mapping or '
              'sequence (each recipient ok/permanent/transient); per round the '
              'backoff grants a retry (delay 0) or not; 4 backends; sender '
-             'empty or not; plus 3 recipients x 2 rounds on dict; bounded '
+             'empty or not; plus 3 recipients x 2 rounds on dict, disk and redis, 2 recipients x 3 rounds with symbolic positive delays on redis, cloud and disk; bounded '
              'pools on redis; mapping listed in reverse recipient order; '
              'RecipientSplit policy with store writes of uneven latency '
              '(0 or 1 extra scheduler turn each) on dict and redis',
@@ -55,8 +55,12 @@ def cells(tier):
                     'kinds': allk})
         out.append({'backend': 'disk', 'n': 2, 'rounds': 2,
                     'kinds': ['transient', 'sequence', 'none']})
-        out.append({'backend': 'dict', 'n': 3, 'rounds': 2,
-                    'kinds': ['mapping', 'transient']})
+        for b in ('dict', 'disk', 'redis'):
+            out.append({'backend': b, 'n': 3, 'rounds': 2,
+                        'kinds': ['mapping', 'transient']})
+        for b in ('redis', 'cloud', 'disk'):
+            out.append({'backend': b, 'n': 2, 'rounds': 3, 'sym_delay': 1,
+                        'kinds': ['mapping', 'transient', 'none']})
         out.append({'backend': 'redis', 'n': 2, 'rounds': 2, 'pools': 1,
                     'kinds': ['mapping', 'transient', 'permanent', 'none']})
         out.append({'backend': 'dict', 'n': 2, 'rounds': 2,
